@@ -26,6 +26,12 @@ SHAPES = {
         {"body": [{"k": "step", "script": [{"do": "ok", "val": 2, "gate": "slow"}]}, {"k": "step", "val": 3}]}],
         "body": [], "cfg": {"preset": "all_completed"}}],
     "big-result": [{"k": "step", "val": 1}],
+    # results large enough that the START and the SUCCEED of one step cannot share a batch (750 KB): the SUCCEED waits in the overflow queue
+    "big-step": [{"k": "step", "script": [{"do": "ok", "big": 800 * 1024}]}, {"k": "step", "val": 2}],
+    "par-big-steps": [{"k": "par", "branches": [{"body": [{"k": "step", "script": [{"do": "ok", "big": 450 * 1024}]}], "result": "r0"},
+                                                  {"body": [{"k": "step", "script": [{"do": "ok", "big": 450 * 1024}]}], "result": "r1"},
+                                                  {"body": [{"k": "step", "script": [{"do": "ok", "big": 450 * 1024}]}], "result": "r2"}],
+                       "cfg": {"preset": "all_completed"}}, {"k": "step", "val": 3}],
     "nested": [{"k": "par", "branches": [{"body": [{"k": "map", "items": [1, 2], "body": [{"k": "step", "val": 1}, {"k": "wait", "s": 1}]}]},
                                            {"body": [{"k": "child", "body": [{"k": "step", "val": 2}, {"k": "invoke", "fn": "f", "payload": 1, "cfg": {"timeout": 60}}]}]}],
                 "cfg": {"preset": "all_completed"}}],
@@ -68,7 +74,9 @@ def run_case(case):
             for err in case["errs"]:
                 for when in case["whens"]:
                     sc = copy.deepcopy(base)
-                    sc["faults"] = [{"match": {"op": "checkpoint", "n": k}, "err": err, "when": when}]
+                    # the failing request is answered at once, or stays in flight long enough for other records to queue up behind it
+                    delay = [0, 0, 15, 40][(k + len(str(err))) % 4]
+                    sc["faults"] = [{"match": {"op": "checkpoint", "n": k}, "err": err, "when": when, "delay_ms": delay}]
                     r = run_scenario(copy.deepcopy(sc))
                     acc.out["obs"]["failing_positions_enumerated"] += 1
                     acc.add(r, [PROP], sc=sc, cls=lambda r, k=k, err=err, when=when: _cls(r, sname, err, when))
@@ -79,7 +87,8 @@ def run_case(case):
     rng = random.Random(case["prog_seed"])
     for _ in range(3):
         sc1 = copy.deepcopy(sc)
-        sc1["faults"] = [{"match": {"op": "checkpoint", "n": rng.randrange(1, napi + 1)}, "err": case["err"], "when": case["when"]}]
+        sc1["faults"] = [{"match": {"op": "checkpoint", "n": rng.randrange(1, napi + 1)}, "err": case["err"], "when": case["when"],
+                          "delay_ms": rng.choice([0, 10, 30])}]
         sc1.setdefault("opts", {})["hang_s"] = 3.0
         if case.get("perturb"):
             sc1["opts"]["perturb"] = {"p": 0.03, "seed": case["prog_seed"]}
@@ -99,7 +108,8 @@ def _cls(r, sname, err, when):
     return "%s|%s|%s|%s|%s" % (sname, err.get("status") or err.get("cls"), when, what, r.get("stop"))
 
 
-RULE = ("for each of seven program shapes (sequential with at-most-once step / wait / wait_for_condition; nested child contexts with a "
+RULE = ("for each of nine program shapes (steps whose results force the overflow queue (800 KB, 3 x 450 KB in parallel), the failing request "
+        "answered at once or left in flight 15-40 ms so that other records queue up behind it; sequential with at-most-once step / wait / wait_for_condition; nested child contexts with a "
         "callback; parallel with running branches; map with suspended (timer, callback) and running branches; map with a branch "
         "re-submitted by the TimerScheduler while a sibling is held inside its step function, so the failing call is the timer thread's "
         "empty refresh checkpoint; the >6 MB final-result checkpoint; nested parallel/map/child with an invoke) EVERY position of the "
